@@ -1,6 +1,6 @@
 /-
   C01: what the regenerated per-tag switch tables of src/rtosc.c (Generated/OscTables.lean)
-  are compared against.  The theorem `tables_agree` is in Props/C01.lean.
+  are compared against.  The theorem `tables_agree` is in Props/C01Tables.lean.
 -/
 import RtoscModel.Generated.OscTables
 import RtoscModel.Osc.Encode
